@@ -142,6 +142,17 @@ CHECKS = [
            'mirror), identical attribute map across all orders and both sources, PDP request structure, accounting counts.',
       note='In-slice is defined by the service-port local_name label as the library documents it; in-slice mirror sites are only '
            'constrained by order-independence.'),
+ dict(property_id='C02', engine='E2-enum', level='exploration',
+      technique='model checking: bounded-exhaustive enumeration of slivers over the reflectively discovered property vocabulary and of containment shapes, through all conversion paths',
+      text='For each of the five sliver classes the settable property names are discovered with list_properties(); every type-enum '
+           'member, every single property x every representative value (all enum members, JSON-, address-, delegation-, path- and '
+           'maintenance-typed values, zero/false/empty forms), every unordered pair of properties and two all-set slivers go through the '
+           'dictionary, JSON and graph paths and come back compared field by field on canonical JSON (plus tree shape and node ids on '
+           'the graph path). All containment trees up to 2 (thorough 3) components / services / interfaces / sub-interfaces are '
+           'round-tripped for the node, a service and an interface. On a live topology every element kind x property x value is set, '
+           're-read from a fresh handle, serialized, unset both ways and re-read; identity properties must refuse unsetting.',
+      note='All singles and pairs, not all subsets; representative values per property (listed in checks/c02.py VOCAB); a setter '
+           'without vocabulary entry is reported as a coverage gap in evidence (currently none).'),
 ]
 _claimed = {c['property_id'] for c in CHECKS}
 NOT_APPLICABLE = [dict(property_id=p, reason='check not built yet in this revision (work in progress; model checking applies, see DESIGN.md)')
